@@ -261,7 +261,7 @@ def run(ctx: Ctx):
         hs = [h for h in short_histories(p, depth2=True, small=True) if len(h) == 5]
         traces += rng.sample(hs, min(len(hs), 60 if q else 1500))
     traces += scalar_traces(rng)
-    for _ in range(300 if q else 5000):
+    for _ in range(250 if q else 5000):
         traces.append(random_walk(rng, rng.randint(6, 14)))
     ctx.notes["histories"] = len(traces)
     lines = judge_traces(ctx, traces)
